@@ -14,6 +14,7 @@ from vf.gen import rng_for
 ID = "C20"
 NEEDS_NUMBA = False
 CASE_TIMEOUT = 900
+TECHNIQUE = "runtime monitoring: icontract post-conditions on the real get_baseline_data/get_reporting_data (window bounds, no leak across the intervention, warnings vs an interval oracle) + the repository's own tests under the same contracts (thorough)"
 LEVEL = "exploration"
 RULE = ("each evaluation is one call of the real get_baseline_data/get_reporting_data on a generated hourly/daily/"
         "billing series (sorted, unique, tz-aware, 3..2000 rows, 5% NaN) with a cut instant inside/outside/exactly on/"
